@@ -7,7 +7,7 @@
    connection set, arithmetic scanner); table: Gen/NetTables.v (NodeScanner.SERVICES, LSS_RX_COBID)
    regenerated from /repo on every run. *)
 From Coq Require Import ZArith List Bool.
-From CV Require Import Base.Val Base.Tys Gen.NetTables Model.Net Model.RefNet Proofs.Net_proofs.
+From CV Require Import Base.Val Base.Tys Gen.NetTables Gen.Src Model.Net Model.RefNet Proofs.Net_proofs Proofs.Src_eq_net.
 Import ListNotations.
 Open Scope Z_scope.
 
@@ -142,6 +142,12 @@ Example C10_nv_frame :
            (fst (run_ops [OSub 389 1] init_net))) = [(HUser 1, 389, [1], 4)].
 Proof. vm_compute. repeat split; reflexivity. Qed.
 
+(* Tie to the source text: NodeScanner.on_message_received as translated from the CURRENT source by
+   tools/py2coq.py (Gen/Src.v, regenerated on every run) is the model's scan_step. *)
+Theorem C10_source_scanner_is_model : forall found can_id,
+  src_scanner_step SERVICES found can_id = scan_step found can_id.
+Proof. exact src_scanner_step_eq. Qed.
+
 Print Assumptions C10_dispatch_refines.
 Print Assumptions C10_notify_delivers.
 Print Assumptions C10_subscribe_idempotent.
@@ -152,3 +158,4 @@ Print Assumptions C10_frame_format.
 Print Assumptions C10_listener_filters.
 Print Assumptions C10_scanner_spec.
 Print Assumptions C10_scanner_is_reference.
+Print Assumptions C10_source_scanner_is_model.
